@@ -288,6 +288,16 @@ def model_save_quantized_weights(model, filename=None, custom_objects={}):
         qs.append(layer.mean_quantizer_internal)
         qs.append(layer.variance_quantizer_internal)
         ws = layer.get_weights()
+      elif isinstance(layer, QBidirectional):
+        # get_weights() holds the forward weights followed by the backward
+        # weights ([kernel, recurrent_kernel(, bias)] each), but each half of
+        # get_quantizers() also ends with a state quantizer (and has a bias
+        # quantizer even without bias). Pair each direction's weights with
+        # that direction's quantizers.
+        qs = []
+        for rnn_layer in [layer.forward_layer, layer.backward_layer]:
+          qs += rnn_layer.get_quantizers()[:len(rnn_layer.get_weights())]
+        ws = layer.get_weights()
       else:
         qs = layer.get_quantizers()
         ws = layer.get_weights()
